@@ -164,7 +164,8 @@ def typed_value(draw, allow_table=True):
     t = draw(st.sampled_from(["bool", "int", "float", "str", "int", "float"] + list(INT_TYPES) + list(FLOAT_TYPES)))
     unit = draw(st.sampled_from(UNITS)) if (t in INT_TYPES or t in FLOAT_TYPES) else None
     if k == "none":
-        return t, {"form": "none"}, None
+        # 'depth float = none cm': the node has no value but keeps its unit
+        return t, {"form": "none"}, (unit if draw(st.booleans()) else None)
     if k == "array":
         return t, draw(array_value(t)), unit
     lit = draw(scalar_literal(t))
